@@ -11,6 +11,12 @@ CLAIMED = {
  "C05": ("typestate / guard-dominance analysis over CFG + call graph (must-facts dataflow, backwards argument tracing)",
          "Decides on all paths of the code: permitted predecessor states of every self.state writer, single guarded close-frame site, state==OPEN guard of every send API, legality of every close code/reason reaching sendCloseFrame, ownership and mutual exclusion of the close notification, closing-timer pairing. Does not decide the behaviour under all event interleavings or real-time bounds (runtime schedules).",
          "3 C05"),
+ "C16": ("guard-dominance rules on CFG/must-facts (limit test extension, gate flag ordering, must-pass-through of the send-side test), API-pairing rule for bounded decompress",
+         "Decides on all paths: the receive-side limit test is `0 < limit < size` (strict, 0 disables) on the running total, sits at frame begin before any payload octet is processed, fails with 1009; every buffer append / delivery is gated by `not failedByMe`; the send-side test dominates every frame write and compares the post-compression length; a bounded decompress() must inspect unconsumed_tail (one known finding: permessage-deflate truncates). Does not decide run-time interaction with fragment spreading.",
+         "3 C16"),
+ "C17": ("timer typestate: table extraction of call_later handles + arm/cancel/clear pairing and state re-check dominance on CFG",
+         "Decides the timer typestate on all paths: five timers tabulated with handler and delay; each armed only under a positive timeout at the required site; cancelled and cleared where the peer met the deadline and at connection loss; every handler re-checks the state (or is cancelled on every transition to CLOSED) before touching the close bookkeeping or the transport; each reports unclean with its own reason and aborts. Does not decide deadlines or slack in time units (runtime clock).",
+         "3 C17"),
 }
 NA_REASON = {}
 ALL = [f"C{i:02d}" for i in range(1, 21)]
